@@ -871,7 +871,8 @@ def matrix():
         ("quotes+ctl", b"'q'\"d\"\n"), ("subst+ctl", b"$(touch PWNED)`touch PWNED`\n;touch PWNED\n"), ("tab", b"a\tb"), ("ctl-only", b"\x01"),
     ]
     for name, body in bodies:
-        for form in ("curl-bash", "httpie-bash") + (("curl-dash",) if name in ("dash+ctl", "nl1", "pct+ctl", "plain") else ()):
+        key = name in ("dash+ctl", "nl1", "pct+ctl", "plain", "subst+ctl")  # the body encoder is shared by curl and httpie: all classes under curl/bash, key ones also under httpie and dash
+        for form in ("curl-bash",) + (("httpie-bash", "curl-dash") if key else ()):
             out.append((base_spec(body=body, body_kind="m:" + name, matrix="body:" + name), form))
     hdr_sets = [
         [("X-Empty", ""), ("X-Blank", "  "), ("X-Lead", "   v"), ("X-Trail", "v  "), ("Accept-Encoding", "gzip"), ("X-Dup", "1"), ("X-Dup", "2")],
